@@ -38,7 +38,26 @@ def run(ctx):
     cov["system_level"] = system_level(ctx)
     cov["poller_model"] = poller_model(ctx)
     cov["states"] += cov["poller_model"]["states"]
+    cov["catch_up_at_scale"] = catch_up(ctx)
     return vlib.finish(ctx, "model_checking", cov, ASSUMPTIONS)
+
+
+def catch_up(ctx):
+    """A node that is far behind (it joined late, or lost that many direct replication messages) completes ONE anti-entropy
+    exchange with the node that has everything: 50 001 / 100 001 / 150 001 documents to fetch (multiples of the poller's fetch
+    limit, plus one) besides the removals.  Afterwards both storages list the same ids, stamps and kinds and hold the same bytes
+    (the component of C05 that runs single real poller rounds; here for the sizes at which 'the rest follows later' is tempting)."""
+    binary = vlib.build_harness(ctx, "h-ec")
+    out = ctx.path("catch_up.json")
+    sizes = "55557,111113,166668" if ctx.tier == "quick" else "55557,111113,166668,222224,333335"
+    vlib.run_harness(ctx, [binary, "large-exchange", "--out", out, "--sizes", sizes, "--removal-sizes", ""], timeout=3000)
+    rep = vlib.load_json(out)
+    if rep["evaluations"] == 0 or rep["entries"] < 300000:
+        raise vlib.ToolError("vacuous catch-up run: %s" % {k: rep.get(k) for k in ("evaluations", "entries")})
+    ctx.log("catch-up at scale: exchanges of up to %s documents through the real poller: %d leave the two nodes apart" % (sizes.split(",")[-1], rep["violation_count"]))
+    for v in rep["violations"][:3]:
+        ctx.violations.append(dict(v, engine="h-ec large-exchange", property="C01"))
+    return {"documents_per_exchange": rep["sizes"], "entries": rep["entries"], "exchanges_that_leave_a_difference": rep["violation_count"]}
 
 
 def poller_model(ctx):
